@@ -253,7 +253,15 @@ def run_sender(script):
             self.pieces = []
 
         def send(self, data):
-            n = rng.choice([1, 1, 2, 3, 5, 8, 13, 60, len(data), len(data)])
+            mode = script.get('mode', 'mixed')
+            if mode == 'whole':
+                n = len(data)
+            elif mode == 'tiny':
+                n = rng.choice([1, 1, 2, 3])
+            elif mode == 'frameish':
+                n = len(data) if rng.random() < 0.7 else rng.randrange(1, len(data) + 1)
+            else:
+                n = rng.choice([1, 1, 2, 3, 5, 8, 13, 60, len(data), len(data)])
             n = max(1, min(n, len(data)))
             self.pieces.append(bytes(data[:n]))
             trace.append([1, n])
@@ -270,6 +278,7 @@ def run_sender(script):
         snaps.append((len(trace), b''.join(sock.pieces),
                       bytes(peer.send_buffer) + b''.join(bytes(x) for x in peer.send_backlog),
                       1 if lp.selector.writing else 0))
+    plan = [list(x) for x in script['plan']] if script.get('plan') else None
     for mhex, phex in script['msgs']:
         m = M.Message.stream_deserialize(io.BytesIO(bytes.fromhex(mhex)))
         prev = None if phex is None else M.MessageHeader.stream_deserialize(io.BytesIO(bytes.fromhex(phex)))
@@ -278,9 +287,20 @@ def run_sender(script):
         snap()
         msgs.append(m)
         prevs.append(prev)
-        while lp.selector.writing and rng.random() < 0.6:
-            peer.handle_can_send(sock)
-            snap()
+        if plan is None:
+            while lp.selector.writing and rng.random() < 0.6:
+                peer.handle_can_send(sock)
+                snap()
+        else:
+            # plan = [[k, j], ...]: k messages in a row, then the socket turns writable j times
+            while plan and plan[0][0] <= 1:
+                for _ in range(plan[0][1]):
+                    if lp.selector.writing:
+                        peer.handle_can_send(sock)
+                        snap()
+                plan.pop(0)
+            if plan:
+                plan[0][0] -= 1
     guard = 0
     while lp.selector.writing and guard < 100000:
         peer.handle_can_send(sock)
@@ -334,16 +354,24 @@ def sender_level(ck, tier, r):
     reqs = []
     wires = []
     machine = []
-    for _ in range(12 if tier == 'quick' else 300):
-        nmsgs = rng.choice([1, 2, 3, 5])
+    for it_ in range(48 if tier == 'quick' else 600):
         script = {'seed': rng.getrandbits(30), 'msgs': []}
+        if it_ % 4 == 0:
+            nmsgs = rng.choice([1, 2, 3, 5])
+        else:
+            # bursts: k messages queued in a row (up to 17, beyond any plausible per-event quota), then 0-2 writable
+            # events, on a socket that takes whole buffers / mostly whole buffers / a few bytes / anything
+            script['mode'] = rng.choice(['whole', 'whole', 'frameish', 'tiny', 'mixed'])
+            script['plan'] = [[rng.choice([1, 2, 3, 4, 5, 8, 9, 10, 16, 17]), rng.choice([0, 1, 1, 2])]
+                              for _ in range(rng.choice([1, 2, 3]))]
+            nmsgs = sum(k for k, _ in script['plan']) + rng.choice([0, 1, 2])
         for i in range(nmsgs):
             m = gen.g_msg(rng, kind=rng.choice([1, 2, 3, 5, 6]))
             prev = gen.g_msg_header(rng) if rng.random() < 0.5 else None
             script['msgs'].append([m.serialize().hex(), None if prev is None else prev.serialize().hex()])
         bad, pieces, frames = judge_sender(script)
         wire = b''.join(pieces)
-        ck.case(('send', wire, tuple(pieces)), kind='sender/%d-msgs' % nmsgs)
+        ck.case(('send', wire, tuple(pieces)), kind='sender/%s/%s-msgs' % (script.get('mode', 'mixed'), nmsgs if nmsgs < 6 else ('6-12' if nmsgs <= 12 else '13+')))
         if bad:
             ck.violation('sent-stream-not-received',
                          'messages handed to send_message are not what a receiver of the written bytes gets: ' + bad,
